@@ -107,7 +107,8 @@ def run(tier, seed):
     from lib.evidence import Report, load_known
     code1 = run_property('C06', scenarios(tier), tier, seed)
     root = os.path.dirname(os.path.dirname(os.path.abspath(__file__)))
-    ev1 = json.load(open(os.path.join(root, 'evidence', 'C06.json')))
+    from lib import evidence as _ev
+    ev1 = json.load(open(os.path.join(_ev.OUT, 'evidence', 'C06.json')))
     rep = Report('C06', tier, seed, clear_replays=False)
     rep.assumptions = ev1.get('assumptions', []) + [
         'float part: fixed-step runs with non-dyadic (t0, dt, Tend); times are projected to ranks of the floats that occur (exact '
